@@ -129,6 +129,8 @@ pub fn pool(variant: u8) -> Vec<(&'static str, Vec<TlSpec>)> {
                 one(vec![], e(0), t(1.0, 0.25, Rep::Times(1), false)),
             ],
         ),
+        // two keyframes at 100%: the approach goes towards the first, the end position shows the second
+        ("tied-at-100%", vec![one(vec![kf(0.0, Some(0.0), Some(0), None, None), kf(1.0, Some(16.0), Some(8), None, None), kf(1.0, Some(-4.0), None, None, None)], e(0), t(4.0, 0.0, Rep::None, false))]),
         // negative delay: the animation is already half-way through when the state is entered (entering it
         // legitimately moves the values at once, so this shape is left out of the C04 no-jump runs)
         ("negative-delay", vec![one(vec![kf(0.0, Some(40.0), Some(-40), None, None), kf(1.0, Some(120.0), Some(80), None, None)], e(0), t(1.0, -0.5, Rep::None, false))]),
@@ -1679,7 +1681,7 @@ pub fn run(run: Run, prop: Prop) -> ! {
     cov.insert("traces_validated_against_impl".into(), json!(acc.histories));
     cov.insert("evaluations".into(), json!(acc.checks));
     cov.insert("distinct_nontrivial".into(), json!(acc.nontrivial));
-    cov.insert("rule".into(), json!(format!("{} animator configurations (X and Y timelines from a pool of 22 shapes: finite, to-only, mid-keyframe-only, delayed, Times 1, reversing, infinite, infinite-reversing-delayed, merged disjoint finite+infinite, merged overlapping, partial, empty merged list, infinite with delay = cycle, delayed Times 2, merged endless + delayed Times 1 reversing with one cycle length, merged short Times 2 + long non-repeating, a property keyed only at 0%, 17 keyframes over 16 s, a 32768 s eased timeline, keyframe-less 2 s, merged finite + longer keyframe-less, negative delay (not in C04 runs); two un-animated states (in every 4th configuration - thorough: an extra copy of every configuration - U2 is a third animated state, so A -> B -> C -> A histories occur); Linear/polynomial or built-in Bezier easings; non-default initial values; initial state X or U1) x ALL histories of length 1..={} over the alphabet [{}] (a state is the history: the real animator is rebuilt and replayed; clauses are evaluated on the last operation of each history, so every operation of every history is checked once) + deviation-bounded pass: default advance(1/4), all histories of length <= {} with <= {} deviations + de-duplicating breadth-first pass keyed on the complete mutable state (counts under bfs_pass; a capped level is reported, everything below the cap depth is complete). {}", cfgs.len(), depth, ops.iter().map(|o| o.name()).collect::<Vec<_>>().join(", "), dev_len, dev_k, match prop {
+    cov.insert("rule".into(), json!(format!("{} animator configurations (X and Y timelines from a pool of 23 shapes: finite, to-only, mid-keyframe-only, delayed, Times 1, reversing, infinite, infinite-reversing-delayed, merged disjoint finite+infinite, merged overlapping, partial, empty merged list, infinite with delay = cycle, delayed Times 2, merged endless + delayed Times 1 reversing with one cycle length, merged short Times 2 + long non-repeating, a property keyed only at 0%, 17 keyframes over 16 s, a 32768 s eased timeline, keyframe-less 2 s, merged finite + longer keyframe-less, two keyframes tied at 100%, negative delay (not in C04 runs); two un-animated states (in every 4th configuration - thorough: an extra copy of every configuration - U2 is a third animated state, so A -> B -> C -> A histories occur); Linear/polynomial or built-in Bezier easings; non-default initial values; initial state X or U1) x ALL histories of length 1..={} over the alphabet [{}] (a state is the history: the real animator is rebuilt and replayed; clauses are evaluated on the last operation of each history, so every operation of every history is checked once) + deviation-bounded pass: default advance(1/4), all histories of length <= {} with <= {} deviations + de-duplicating breadth-first pass keyed on the complete mutable state (counts under bfs_pass; a capped level is reported, everything below the cap depth is complete). {}", cfgs.len(), depth, ops.iter().map(|o| o.name()).collect::<Vec<_>>().join(", "), dev_len, dev_k, match prop {
         Prop::C04 => "Oracle: current_values bit-identical before/after every set_state; same-state set_state leaves time, pause record and is_ended unchanged. non-trivial = set_state calls that change the state",
         Prop::C05 => "Oracle: RefAnimator stepped alongside (current_state, time in state via hook, live pause record via hook, values = state's merged timeline started from the values observed at entry, evaluated at the time in state; un-animated fields bit-identical). non-trivial = operations after which the current state animates at least one property",
         Prop::C06 => "Companion: every sequence of 2..5 non-representable steps (0.1,0.2,0.3,1/3,0.7) vs one advance of their f32 sum, values within float rounding (1e-3 of the value scale; sequences ending within 2e-5 s of a reference discontinuity skipped). Oracle: the history and its normal form (consecutive advances merged, zero advances and same-state changes dropped) end with bit-identical values, state and is_ended; advance(0) is a no-op. non-trivial = histories that differ from their normal form",
